@@ -315,17 +315,19 @@ pub struct SweepItem {
     pub kind: u8,
     pub total: usize,
     pub at: usize,
+    /// distance between the two violated positions
+    pub dist: usize,
 }
 
 impl SweepItem {
     pub fn encode(&self) -> Vec<u8> {
-        vec![self.curve.index() as u8, self.kind, (self.total >> 8) as u8, self.total as u8, (self.at >> 8) as u8, self.at as u8]
+        vec![self.curve.index() as u8, self.kind, (self.total >> 8) as u8, self.total as u8, (self.at >> 8) as u8, self.at as u8, (self.dist >> 8) as u8, self.dist as u8]
     }
     pub fn decode(b: &[u8]) -> Option<Self> {
-        if b.len() != 6 {
+        if b.len() != 8 {
             return None;
         }
-        Some(SweepItem { curve: *Curve::ALL.get(b[0] as usize)?, kind: b[1], total: (b[2] as usize) << 8 | b[3] as usize, at: (b[4] as usize) << 8 | b[5] as usize })
+        Some(SweepItem { curve: *Curve::ALL.get(b[0] as usize)?, kind: b[1], total: (b[2] as usize) << 8 | b[3] as usize, at: (b[4] as usize) << 8 | b[5] as usize, dist: (b[6] as usize) << 8 | b[7] as usize })
     }
 }
 
@@ -334,7 +336,7 @@ fn sweep_case<G: CurveTag>(it: &SweepItem, col: &mut Collector) -> Result<(), Fa
     let mut ops = vec![Op::Commit { v: ScalarSpec::Small(9), blind: ScalarSpec::Rand(5) }];
     if it.kind == 0 {
         for q in 0..it.total {
-            let err = if q == it.at { Some(ScalarSpec::Small(3)) } else if q == it.at + 1 { Some(ScalarSpec::NegSmall(3)) } else { None };
+            let err = if q == it.at { Some(ScalarSpec::Small(3)) } else if q == it.at + it.dist { Some(ScalarSpec::NegSmall(3)) } else { None };
             let lc = if q % 3 == 0 { vec![] } else { vec![(Var::Com(0), Sc::C(ScalarSpec::Small(1 + (q % 7) as u64)))] };
             ops.push(Op::Constrain { lc, err, base: None });
         }
@@ -343,7 +345,7 @@ fn sweep_case<G: CurveTag>(it: &SweepItem, col: &mut Collector) -> Result<(), Fa
             ops.push(Op::AllocMul { l: Sc::C(ScalarSpec::Small(2 + i as u64)), r: Sc::C(ScalarSpec::Rand(i as u64)) });
         }
         ops.push(Op::Tamper { gate: it.at, dl: ScalarSpec::Zero, dr: ScalarSpec::Zero, dout: ScalarSpec::Small(5) });
-        ops.push(Op::Tamper { gate: it.at + 1, dl: ScalarSpec::Zero, dr: ScalarSpec::Zero, dout: ScalarSpec::NegSmall(5) });
+        ops.push(Op::Tamper { gate: it.at + it.dist, dl: ScalarSpec::Zero, dr: ScalarSpec::Zero, dout: ScalarSpec::NegSmall(5) });
     }
     let prog = Program { curve: G::CURVE, tlabel: 0, pre: vec![], ops, owned: false, cap_p: Cap::Exact, cap_v: Cap::Exact, party_cap: 1, seed: it.at as u64, pc: 0 };
     let p = run_prover::<G>(&prog, &ProveOpts::default());
@@ -356,12 +358,12 @@ fn sweep_case<G: CurveTag>(it: &SweepItem, col: &mut Collector) -> Result<(), Fa
         let what = if it.kind == 0 { "linear constraints" } else { "multiplication gates" };
         return Err(Failure::new(
             format!("C02:accepted:adjacent-cancelling-{}", if it.kind == 0 { "constraints" } else { "gates" }),
-            format!("cancelling errors on {} #{} and #{} (of {}) are accepted: the two positions are not weighted independently", what, it.at, it.at + 1, it.total),
+            format!("cancelling errors on {} #{} and #{} (of {}) are accepted: the two positions are not weighted independently", what, it.at, it.at + it.dist, it.total),
             json!({"sweep": format!("{:?}", it)}),
         ));
     }
     col.class(if it.kind == 0 { "sweep:adjacent-constraints" } else { "sweep:adjacent-gates" });
-    col.nontrivial(fp_of(&(it.curve, it.kind, it.total, it.at)));
+    col.nontrivial(fp_of(&(it.curve, it.kind, it.total, it.at, it.dist)));
     if it.at == 255 {
         col.sample(true, || json!({"sweep": format!("{:?}", it), "verdict": v.verdict()}));
     }
@@ -416,10 +418,21 @@ pub fn run(tier: &str, seed: u64) -> i32 {
         for c in curves {
             let (q_total, g_total) = if tier == "thorough" { (1100, 256) } else { (1100, 64) };
             for at in 0..q_total - 1 {
-                items.push(SweepItem { curve: c, kind: 0, total: q_total, at });
+                items.push(SweepItem { curve: c, kind: 0, total: q_total, at, dist: 1 });
             }
             for at in 0..g_total - 1 {
-                items.push(SweepItem { curve: c, kind: 1, total: g_total, at });
+                items.push(SweepItem { curve: c, kind: 1, total: g_total, at, dist: 1 });
+            }
+            // pairs at block-like distances
+            for dist in [2usize, 8, 16, 32, 64, 128, 255, 256, 257, 512, 1024] {
+                for at in [0usize, 1, 7, 63, 64] {
+                    if at + dist < q_total {
+                        items.push(SweepItem { curve: c, kind: 0, total: q_total, at, dist });
+                    }
+                    if at + dist < g_total {
+                        items.push(SweepItem { curve: c, kind: 1, total: g_total, at, dist });
+                    }
+                }
             }
         }
         let mut o = crate::runner::enumerate("c02/sweep", &items, &|i| i.encode(), &|i, col| dispatch_sweep(i, col));
